@@ -205,6 +205,13 @@ def trees(tier, seed):
                 (["bin", op, A, ["bin", op, ["lit", 3], ["lit", 2]]], "fold"), (["bin", op, ["bin", op, ["lit", 3], ["lit", 2]], A], "fold"),
                 (["bin", op, ["lit", 0], A], "fold"), (["bin", op, A, ["lit", 0]], "fold"), (["bin", op, ["lit", 1], A], "fold"), (["bin", op, A, ["lit", 1]], "fold"),
                 (["bin", op, NULL, A], "fold"), (["bin", op, A, NULL], "fold"), (["bin", op, ["lit", True], A], "fold"), (["bin", op, A, ["lit", False]], "fold")]
+    # literal pairs of equal value and different type (integer vs float), and of nearly equal value: folding a
+    # comparison of two literals must give what the database gives for the same comparison
+    for op in gexpr.CMP:
+        for l, r in ((2, 2.0), (2.0, 2), (0, 0.0), (0.0, 0), (7, 7.0), (1, 1.5), (1.5, 1), (2, 2), (2.5, 2.5), (3, 2.0), (2.0, 3)):
+            out += [(["bin", op, ["lit", l], ["lit", r]], "fold"), (["case", [[["bin", op, ["lit", l], ["lit", r]], A], [["lit", True], B]]], "fold"),
+                    (["bin", "&&", ["bin", op, ["lit", l], ["lit", r]], ["bin", ">", A, ["lit", 0]]], "fold")]
+        out += [(["bin", op, ["neg", ["lit", 1]], ["neg", ["lit", 1.0]]], "fold")]
     D, E = ["col", None, "d"], ["col", None, "e"]
     for x in (D, E):
         out += [(["neg", x], "const"), (["neg", ["neg", x]], "const"), (["bin", "-", A, x], "const"), (["bin", "-", A, ["neg", x]], "const"), (["bin", "-", x, x], "const"),
